@@ -10,7 +10,8 @@ def path_root(t):
 
 def _is_bound_root(t, bound):
     r = path_root(t)
-    return r[0] == "id" and not r[2] and r[1] in bound
+    # a variable is the WHOLE identifier (namespace included): ns.x is not x
+    return r[0] == "id" and ".".join(tuple(r[2]) + (r[1],)) in bound
 
 
 def subst_ref(t, mapping, bound=frozenset()):
